@@ -179,12 +179,21 @@ def _child_solve2(lin, assertions, timeout_s, model_vars, tactic, core=None):
     return _child_solve(assertions, timeout_s, model_vars, tactic)
 
 
+def _die_with_parent():
+    try:
+        import ctypes
+        ctypes.CDLL('libc.so.6', use_errno=True).prctl(1, signal.SIGKILL)     # PR_SET_PDEATHSIG
+    except Exception:
+        pass
+
+
 def run_forked(fn, args, wall_s):
     """Run fn(*args) in a forked child, kill it after wall_s seconds.  -> (ok, value|reason)"""
     r, w = os.pipe()
     pid = os.fork()
     if pid == 0:
         try:
+            _die_with_parent()
             os.close(r)
             try:
                 out = ('ok', fn(*args))
